@@ -422,6 +422,117 @@ func c11Families(tier string) []explore.Family {
 		}
 	}})
 
+	// --- maps: the visiting order is not C11's business, but selection is relative to it: within one render
+	// reversed / offset / limit / tablerow over the same map must select from the SAME sequence the plain
+	// loop visits (so the order has to be a function of the map, whatever it is).
+	const mapMax = 9
+	fams = append(fams, explore.Family{Name: "map-selection-law", Count: int64((mapMax + 1) * 4 * 3), Run: func(i int64, r *explore.Rec) {
+		rx := radix{i}
+		kind, style, n := rx.next(3), rx.next(4), rx.next(mapMax+1)
+		keyOf := func(j int) string {
+			switch style {
+			case 0:
+				return fmt.Sprintf("k%d", j)
+			case 1:
+				return []string{"10", "9", "2xx", "404", "1000", "a", "B", "", "1e3"}[j]
+			case 2:
+				return strings.Repeat("z", mapMax-j) // descending insertion order
+			}
+			return []string{"b", "a", "d", "c", "f", "e", "h", "g", "i"}[j]
+		}
+		var m any
+		switch kind {
+		case 0:
+			mm := map[string]any{}
+			for j := 0; j < n; j++ {
+				mm[keyOf(j)] = j
+			}
+			m = mm
+		case 1:
+			mm := map[string]int{}
+			for j := 0; j < n; j++ {
+				mm[keyOf(j)] = j
+			}
+			m = mm
+		case 2:
+			mm := map[any]any{}
+			for j := 0; j < n; j++ {
+				mm[keyOf(j)] = j
+			}
+			m = mm
+		}
+		item := "{{ kv[1] }}:{{ forloop.index }},"
+		src := "{% for kv in m %}" + item + "{% endfor %}|{% for kv in m reversed %}" + item + "{% endfor %}|" +
+			"{% for kv in m offset: 1 %}" + item + "{% endfor %}|{% for kv in m limit: 2 %}" + item + "{% endfor %}|" +
+			"{% for kv in m reversed offset: 1 limit: 2 %}" + item + "{% endfor %}|{% tablerow kv in m cols: 2 %}" + item + "{% endtablerow %}|" +
+			"{% for kv in m %}" + item + "{% endfor %}|"
+		desc := map[string]any{"template": src, "entries": n, "key_style": style, "map_kind": kind}
+		for rep := 0; rep < 3; rep++ {
+			r.Eval()
+			r.Transition()
+			r.Trace()
+			o := Render(c11.eng, src, map[string]any{"m": m})
+			if o.Panic != nil || o.Err != nil {
+				r.Violation("wrong:map-selection", desc, "output", o.String())
+				return
+			}
+			parts := strings.Split(regexp.MustCompile(`</?t[rd][^>]*>|\n`).ReplaceAllString(o.Out, ""), "|")
+			if len(parts) != 8 {
+				r.Violation("wrong:map-selection", desc, "8 sections", o.String())
+				return
+			}
+			seq := func(p string) []string { // values in visiting order; the index after ':' must count 1,2,3..
+				var vs []string
+				for k, it := range strings.Split(strings.TrimSuffix(p, ","), ",") {
+					if it == "" {
+						continue
+					}
+					vi := strings.SplitN(it, ":", 2)
+					if len(vi) != 2 || vi[1] != strconv.Itoa(k+1) {
+						return []string{"bad-index:" + it}
+					}
+					vs = append(vs, vi[0])
+				}
+				return vs
+			}
+			S := seq(parts[0])
+			rev := func(a []string) []string {
+				out := make([]string, len(a))
+				for k := range a {
+					out[len(a)-1-k] = a[k]
+				}
+				return out
+			}
+			cut := func(a []string, off, lim int) []string {
+				if off > len(a) {
+					off = len(a)
+				}
+				a = a[off:]
+				if lim >= 0 && lim < len(a) {
+					a = a[:lim]
+				}
+				return a
+			}
+			want := [][]string{S, rev(S), cut(S, 1, -1), cut(S, 0, 2), cut(rev(S), 1, 2), S, S}
+			names := []string{"plain", "reversed", "offset: 1", "limit: 2", "reversed offset: 1 limit: 2", "tablerow", "plain again"}
+			seen := map[string]bool{}
+			for _, v := range S {
+				seen[v] = true
+			}
+			if len(S) != n || len(seen) != n {
+				r.Violation("wrong:map-selection:each-pair-once", desc, fmt.Sprintf("%d distinct pairs", n), o.String())
+				return
+			}
+			for k := range want {
+				if strings.Join(seq(parts[k]), ",") != strings.Join(want[k], ",") {
+					r.Violation("wrong:map-selection:"+names[k], desc, names[k]+" selects from the sequence the plain loop visits: "+strings.Join(want[k], ","), parts[k]+"  (whole output: "+o.Out+")")
+					return
+				}
+			}
+		}
+		r.Class(fmt.Sprintf("map-law/n%d", n))
+	}})
+
 	// --- nothing selected -> else
 	type emptyCase struct {
 		name string
